@@ -265,7 +265,7 @@ pub fn run(ctx: Ctx) -> ! {
             }
         }
         isolate::Outcome::Died(st) => ctxr.violation("concurrent runs: exploration process died (panic/abort inside an execution)", case.clone(), st),
-        isolate::Outcome::Timeout => ctxr.violation("concurrent runs: exploration did not finish within 300 s (deadlock?)", case.clone(), "timeout"),
+        isolate::Outcome::Timeout => ctxr.machinery(&format!("{}: a loom deadlock or livelock is reported by loom itself (process death), so a wall-clock timeout means the exploration is too slow on this machine; case {case}", "concurrent runs: exploration did not finish within 300 s (deadlock?)")),
     });
     let t = totals.into_inner().unwrap();
     if t.0 < scs.len() as u64 * 2 || t.2 == 0 {
